@@ -189,6 +189,13 @@ func (w *World) fs(name string) partstore.PartStore {
 	if err := os.MkdirAll(dir, 0o755); err != nil {
 		panic(err)
 	}
+	if !w.Cfg.StartStorage {
+		// the storage as a whole is not started (no background GC loop), but a filesystem
+		// store's own start-up (root directory, crash recovery) must run like in production
+		if err := ps.Start(context.Background()); err != nil {
+			panic(err)
+		}
+	}
 	return w.wrapPS(name, ps)
 }
 
